@@ -1,7 +1,8 @@
 (* C19 — The legacy configuration format round-trips an instance: property theorems. *)
 From Coq Require Import String List Bool ZArith.
 Require Import V.Lib.PyStr V.Lib.JTree V.Dosini.Codec V.Dosini.Generated V.Dosini.Model V.Dosini.Proofs V.Dosini.Tables
-  V.Dosini.Text V.Dosini.TextProofs V.Dosini.FileProofs V.Dosini.Stages V.Dosini.Envs V.Dosini.EnvsProofs V.Dosini.Backends.
+  V.Dosini.Text V.Dosini.TextProofs V.Dosini.FileProofs V.Dosini.Stages V.Dosini.Envs V.Dosini.EnvsProofs V.Dosini.Backends
+  V.Dosini.Rewrite V.Dosini.RewriteProofs.
 Import ListNotations.
 Open Scope string_scope.
 
@@ -193,6 +194,63 @@ Theorem C19_component_through_file :
 Proof. exact via_file_identity. Qed.
 Print Assumptions C19_component_through_file.
 
+(* TYPED variables (Rewrite.v).  The [META] section of a stage file of an instance: for EVERY set of global variables and of
+   variables of the stage whose values are scalars of any type (text, int, float, bool - a YAML variables file keeps the YAML
+   type), the section is written, holds exactly the names of the two sets, and gives for every name the text str(value) of the
+   value the name resolves to in the description that was written (the variable of the stage, else the global one): True is
+   stored as True, 3 as 3, 0.05 as 0.05, the text true as true. *)
+Theorem C19_meta_variables :
+  forall g s, forallb (fun kv => scalar (snd kv)) g = true -> forallb (fun kv => scalar (snd kv)) s = true ->
+    exists i, meta_section true g s = Some i /\ map fst i = map fst (update g s) /\
+              forall n, lookup n i = text_of (resolved g s n).
+Proof. exact meta_resolves. Qed.
+Print Assumptions C19_meta_variables.
+
+(* composed with the text layer: when the section is inside the guard of C19_text_roundtrip the reader of the stage file sees it *)
+Theorem C19_meta_through_file :
+  forall g s i, meta_section true g s = Some i -> table_ok [("META", i)] = true -> meta_via_file true g s = Some i.
+Proof. exact meta_through_file. Qed.
+Print Assumptions C19_meta_through_file.
+
+(* The configuration DIRECTORY over a sequence of writes (Rewrite.v).  Whatever files the directory held before
+   Dosini.dump(.., update_existing=True) - the files of an earlier description with more stages, more components, other
+   platforms, anything - every file a load reads afterwards has the content the last write gives it; a file the last write does
+   not produce is read only when it is none of the files the cleanup removes (for an instance: output.conf / status.conf, which
+   an instance inherits from its package).  C19_rewrite_stage_files: the stage files a load of an instance discovers are exactly
+   the stage files of the last write.  C19_write_keeps_existing: with update_existing=False a file that exists is kept and a
+   missing one is written.  C19_write_into_empty_directory: into an empty directory both modes write the same files. *)
+Theorem C19_rewrite_last_wins :
+  forall is_instance old fresh f, reads is_instance f = true ->
+    lookup f (dump_dir is_instance true old fresh) =
+    match lookup f fresh with Some c => Some c | None => if cleaned is_instance f then None else lookup f old end.
+Proof. exact rewrite_last_wins. Qed.
+Print Assumptions C19_rewrite_last_wins.
+
+Theorem C19_rewrite_stage_files :
+  forall old fresh f, is_instance_stage f = true -> lookup f (dump_dir true true old fresh) = lookup f fresh.
+Proof. exact rewrite_stage_files. Qed.
+Print Assumptions C19_rewrite_stage_files.
+
+Theorem C19_write_keeps_existing :
+  forall is_instance old fresh f,
+    lookup f (dump_dir is_instance false old fresh) = match lookup f old with Some c => Some c | None => lookup f fresh end.
+Proof. exact lookup_dump_keep. Qed.
+Print Assumptions C19_write_keeps_existing.
+
+Theorem C19_write_into_empty_directory : forall is_instance update fresh, dump_dir is_instance update [] fresh = fresh.
+Proof. exact dump_fresh. Qed.
+Print Assumptions C19_write_into_empty_directory.
+
+(* an instance of three stages re-written with two: variables of every type at both scopes *)
+Definition example_globals : tvars := [("restart", VBool true); ("n", VInt 4); ("tolerance", VFlt "0.05"); ("mode", VStr "true")].
+Definition example_stage_vars : tvars := [("verbose", VBool false); ("n", VStr "007")].
+Definition example_old_dir : dir :=
+  [("experiment.instance.conf", "e1"); ("stages.d/stage0.instance.conf", "a1"); ("stages.d/stage1.instance.conf", "b1");
+   ("stages.d/stage2.instance.conf", "c1"); ("stages.d/stage0.conf", "p0"); ("variables.conf", "v1"); ("output.conf", "o1")].
+Definition example_new_files : dir :=
+  [("experiment.instance.conf", "e2"); ("variables.conf", "v2"); ("stages.d/stage0.instance.conf", "a2");
+   ("stages.d/stage1.instance.conf", "b2")].
+
 (* a table inside the guard of C19_text_roundtrip: a [META] section and two components; a value of five lines
    (an empty one, lines that look like an entry, a section header and an inline comment), a first line that
    starts with '#', keys in mixed case, %(name)s references and an escaped '%%' *)
@@ -237,5 +295,14 @@ Example C19_example :
   (* a backend option that the format keeps as a variable, loaded after a component of that backend *)
   existsb (fun b => negb (forallb (fun n => mem n known_keys) (snd b))) backend_options = true /\
   nth_error (load_seq [[("job-type", "simulator"); ("sim_expected_exit_code", "1")]; [("sim_expected_exit_code", "24 0")]]) 1 =
-    Some (Some (mkComp [] [("sim_expected_exit_code", "24 0")])).
+    Some (Some (mkComp [] [("sim_expected_exit_code", "24 0")])) /\
+  (* typed variables in the META section of an instance; the directory of an instance re-written with fewer stages *)
+  forallb (fun kv => scalar (snd kv)) (example_globals ++ example_stage_vars)%list = true /\
+  meta_section true example_globals example_stage_vars =
+    Some [("restart", "True"); ("n", "007"); ("tolerance", "0.05"); ("mode", "true"); ("verbose", "False")] /\
+  meta_via_file true example_globals example_stage_vars = meta_section true example_globals example_stage_vars /\
+  seen true (dump_dir true true example_old_dir example_new_files) =
+    [("experiment.instance.conf", "e2"); ("output.conf", "o1"); ("stages.d/stage0.instance.conf", "a2"); ("stages.d/stage1.instance.conf", "b2")] /\
+  lookup "variables.conf" (dump_dir true true example_old_dir example_new_files) = Some "v1" /\
+  lookup "stages.d/stage2.instance.conf" (dump_dir true false example_old_dir example_new_files) = Some "c1".
 Proof. vm_compute. repeat split; reflexivity. Qed.
